@@ -1,10 +1,39 @@
 /-
-  C05 at whole-document level: the source ranges of the tree `parseDoc` returns.
+  C05 at whole-document level: the source ranges of the tree `parseDoc` returns
+  (`Model/Pipeline.lean`; html-free configurations, any subset / order of the nine cmark block rules
+  and the inline rules, any `max_nesting`, with and without `sourcepos`).
 
-  Part A (namespace `MdIt.Block`) — the geometric invariant of the block tokenizer, by the induction
-  scheme of `parseBlocks_wf` (`tokenize_geo`, `runRule_geo`, per-rule lemmas).
-  Part B (namespace `MdIt.Pipeline`) — transport through the splice walk, the join pass and the
-  sourcepos pass; the document theorems.
+  Property theorems (namespace `MdIt.Pipeline`), each conditional only on `parseDoc … = .ok t`:
+    `doc_root_range`      `t.range = some (0, |src|)` — all documents, no hypothesis.
+    `doc_block_skeleton`  the tree of BLOCK nodes of `t` with their ranges (`bskel t`) is that of the
+                          block pass (`bskelB root`): splice walk, `FragmentsJoin` and `SyntaxPosRule`
+                          neither move, add, drop nor re-range a block node.
+    `doc_block_ranges`    `RangedRT src (bskel t)`: every block node has a range `(a, b)`,
+                          `a ≤ b ≤ |src|`, both ends on character boundaries; the ranges of its
+                          block children lie inside `[a, b]`, in source order, each starting at or
+                          behind the end of the previous one; at every depth
+                          (`RangedRT.child_within`, `OrderedRT.mem` spell the enclosure out).
+                          Hypothesis: `4·|src| + 8 < 2³¹` — `indent_nonspace` / `blk_indent` are `i32`
+                          in the Rust and `get_lines` casts `indent as i32` (`Lines.usizeAsI32`).
+    `rangesOk_bskel`      `doc_block_ranges` is exactly the projection of the complete property
+                          `RangesOk` (root, validity, enclosure, order, text faithfulness on EVERY
+                          node) to the block skeleton — sanity of the statement.
+  Block-pass theorem behind it (namespace `MdIt.Block`), by the induction scheme of `parseBlocks_wf`:
+    `parseBlocks_geo`     for ANY claim `P` about placeholders that their producers establish
+                          (`InlSpec`): the root is `(0, |src|)` and every node is `RangedB P`
+                          (`tokenize_geo`, `runRule_geo`, `<rule>_geo`, `tokLoop_geo`).
+  Ingredients that may be cited: `Geo` (table invariant: `TableOk`, lines in source order, indent ≤ 4
+  columns per blank byte), `bqScan_refines` / `Refines` (containers keep the line spans and move
+  `first_nonspace` to the right only), `Lines.calcRightWs_ge` (asking `get_lines` for at most the
+  columns behind a prefix never cuts into the prefix) with `bqRewrite_cut` / `itemRewrite_cut` (an
+  indented code block on the first line of a quote / list item starts behind the marker),
+  `markTight_geo`, `tightenItems_geo`.
+
+  FINDING (witness `example` near the end, confirmed on the crate): without the paragraph rule the
+  no-paragraph fallback of `BlockParser::tokenize` produces inline ranges OUTSIDE the source:
+  `md.parse("a")` (block rules: `hr` only; inline: text, newline) → `Softbreak (1, 2)` under
+  `Root (0, 1)`; with CR LF the softbreak covers the `\r` only.
+  OPEN (block comment at the end): `doc_inline_ranges`, `doc_text_faithful` = the rest of `RangesOk`.
 -/
 import MdIt.Props.Pipeline
 import MdIt.Props.C05
@@ -399,7 +428,7 @@ theorem Geo.map_ok {s : BState} (hg : Geo s) {a b : Nat} {oa ob : LineOffset} (h
 
 /-! ## what the rules that make placeholders must establish -/
 
-structure InlSpec (P : InlP) : Prop where
+structure InlSpec (para : Bool) (P : InlP) : Prop where
   /-- paragraph, setext heading: `get_lines(b, e, blk_indent, false)` -/
   lines : ∀ (s : BState) (b e : Nat) (c : List Char) (m : List (Nat × Nat)) (ob oe : LineOffset),
     Geo s → s.getLines b e s.blkIndent false = .ok (c, m) → b < e →
@@ -409,8 +438,9 @@ structure InlSpec (P : InlP) : Prop where
     Geo s → s.offs[s.line]? = some o → s.getLine s.line = .ok line →
     liftL (Lines.slice line textPos textMax) = .ok content →
     P content [(0, o.firstNonspace + textPos)] o.firstNonspace o.lineEnd
-  /-- the no-paragraph fallback: the line and a line feed -/
-  fallback : ∀ (s : BState) (o : LineOffset) (l : List Char),
+  /-- the no-paragraph fallback: the line and a line feed (dead code with the paragraph rule in the
+      chain, `runChain_para`; and NOT inside the line's range otherwise: see the witness at the end) -/
+  fallback : para = false → ∀ (s : BState) (o : LineOffset) (l : List Char),
     Geo s → s.offs[s.line]? = some o → s.getLine s.line = .ok l →
     P (l ++ ['\n']) [(0, o.firstNonspace)] o.firstNonspace o.lineEnd
 
@@ -435,7 +465,7 @@ theorem hr_geo {P : InlP} {s s' : BState} {b : Bool} (h : hrRule s false = .ok (
   exact hk.push hg ha ha (Nat.le_refl _) spanB_range (rangedB_leaf _ g2 g3 g4) (hs _ _ (Nat.le_refl _) ha).1
     g1 g2 (Nat.le_refl _) rfl rfl rfl (by simp [BState.push])
 
-theorem heading_geo {P : InlP} (hP : InlSpec P) {s s' : BState} {b : Bool}
+theorem heading_geo {para : Bool} {P : InlP} (hP : InlSpec para P) {s s' : BState} {b : Bool}
     (h : headingRule s false = .ok (b, s')) : KeepsGeo P s s' := by
   unfold headingRule at h
   crack h
@@ -467,7 +497,7 @@ theorem fence_geo {P : InlP} {s s' : BState} {b : Bool} (h : fenceRule s false =
   show _ < _ + (if _ then 1 else 0)
   split at he <;> simp_all <;> omega
 
-theorem paragraph_geo {P : InlP} (hP : InlSpec P) {test : Test} (ht : TestPure test) {fuel : Nat}
+theorem paragraph_geo {para : Bool} {P : InlP} (hP : InlSpec para P) {test : Test} (ht : TestPure test) {fuel : Nat}
     {s s' : BState} {b : Bool} (h : paragraphRule test fuel s false = .ok (b, s')) : KeepsGeo P s s' := by
   unfold paragraphRule at h
   crack h
@@ -486,7 +516,7 @@ theorem paragraph_geo {P : InlP} (hP : InlSpec P) {test : Test} (ht : TestPure t
     (rangedB_text _ g2 g3 g4 hp (Nat.le_refl _) g2 (Nat.le_refl _)) (hs _ _ (Nat.le_refl _) ha).1
     g1 g2 (Nat.le_refl _) rfl rfl rfl (by simp [BState.push]; omega)
 
-theorem lheading_geo {P : InlP} (hP : InlSpec P) {test : Test} (ht : TestPure test) {fuel : Nat}
+theorem lheading_geo {para : Bool} {P : InlP} (hP : InlSpec para P) {test : Test} (ht : TestPure test) {fuel : Nat}
     {s s' : BState} {b : Bool} (h : lheadingRule test fuel s false = .ok (b, s')) : KeepsGeo P s s' := by
   unfold lheadingRule at h
   crack h
@@ -1258,7 +1288,7 @@ theorem list_rule_geo {P : InlP} {tok : Tok} {test : Test} (hk : TokSpec tok) (h
 
 /-! ## the chain and the tokenizer -/
 
-theorem runRule_geo {P : InlP} (hP : InlSpec P) {cfg : Cfg} {tok : Tok} {test : Test} (hk : TokSpec tok)
+theorem runRule_geo {para : Bool} {P : InlP} (hP : InlSpec para P) {cfg : Cfg} {tok : Tok} {test : Test} (hk : TokSpec tok)
     (hsh : TokGeo P tok) (ht : TestPure test) (fuel : Nat) (r : RuleId) {s s' : BState} {b : Bool}
     (h : runRule cfg tok test fuel r s false = .ok (b, s')) (hl : s.line < s.lineMax) (hi : IndentOk s) :
     KeepsGeo P s s' := by
@@ -1293,8 +1323,9 @@ theorem runChain_geo {P : InlP} {run : RuleId → BState → Bool → Res} (hr :
       subst this
       exact ih _ _ _ h hl hi
 
-theorem afterChain_geo {P : InlP} (hP : InlSpec P) {ok : Bool} {s s' : BState} {prev : Nat}
-    (h : afterChain ok s prev = .ok s') : KeepsGeo P s s' := by
+theorem afterChain_geo {para : Bool} {P : InlP} (hP : InlSpec para P) {ok : Bool} {s s' : BState}
+    {prev : Nat} (h : afterChain ok s prev = .ok s') (hp : ok = false → para = false) :
+    KeepsGeo P s s' := by
   unfold afterChain at h
   crack h
   · exact KeepsGeo.refl _ _
@@ -1303,7 +1334,8 @@ theorem afterChain_geo {P : InlP} (hP : InlSpec P) {ok : Bool} {s s' : BState} {
     have hl := ‹BState.getLine _ _ = _›
     have hb := (hg.table _ _ ho).bounds
     exact hk.push hg ho ho (Nat.le_refl _) (a := _) (b := _)
-      (show SpanB P ⟨.inlineRoot _ _, none, []⟩ _ _ from ⟨_, _, rfl, rfl, hP.fallback s _ _ hg ho hl⟩)
+      (show SpanB P ⟨.inlineRoot _ _, none, []⟩ _ _ from ⟨_, _, rfl, rfl,
+        hP.fallback (hp (by simpa using ‹¬ ok = true›)) s _ _ hg ho hl⟩)
       (rangedB_inl _ _) (hs _ _ (Nat.le_refl _) ho).1 hb.1 hb.2.1 (Nat.le_refl _) rfl rfl rfl
       (by simp [BState.push])
 
@@ -1316,9 +1348,10 @@ theorem runChain_frame {run : RuleId → BState → Bool → Res} (hr : RunSpec 
   | false => have := h1 rfl; subst this; exact ⟨Frame.refl _, Nat.le_refl _⟩
   | true => have := h2 rfl hlt hi; exact ⟨this.frame, Nat.le_of_lt this.lt⟩
 
-theorem tokLoop_geo {P : InlP} (hP : InlSpec P) {cfg : Cfg} {run : RuleId → BState → Bool → Res}
-    (hr : RunSpec run)
-    (hsh : ∀ r s b s', run r s false = .ok (b, s') → s.line < s.lineMax → IndentOk s → KeepsGeo P s s') :
+theorem tokLoop_geo {para : Bool} {P : InlP} (hP : InlSpec para P) {cfg : Cfg}
+    {run : RuleId → BState → Bool → Res} (hr : RunSpec run)
+    (hsh : ∀ r s b s', run r s false = .ok (b, s') → s.line < s.lineMax → IndentOk s → KeepsGeo P s s')
+    (hpara : para = true → ∀ s b s', runChain run cfg.chain s false = .ok (b, s') → b = true) :
     ∀ (fuel : Nat) (he : Bool) (s s' : BState), tokLoop cfg run fuel he s = .ok s' → KeepsGeo P s s' := by
   intro fuel
   induction fuel with
@@ -1347,14 +1380,20 @@ theorem tokLoop_geo {P : InlP} (hP : InlSpec P) {cfg : Cfg} {run : RuleId → BS
       have hst1 : StartsGe ({ s with line := l' } : BState) lo := hs.of_eq rfl rfl rfl hs1
       have hk1 : KidsOk P ({ s with line := l' } : BState) lo := hk.of_eq rfl rfl rfl hs1
       have hk2 := runChain_geo hr hsh _ _ _ _ hchain hlt hio lo hg1 hst1 hk1
-      have hk3 := afterChain_geo hP hafter lo (hg1.of_frame hfr2.1) (hst1.of_frame hfr2.1 hfr2.2) hk2
+      have hk3 := afterChain_geo hP hafter (by
+        intro hok
+        cases hp : para with
+        | false => rfl
+        | true => have := hpara hp _ _ _ hchain; simp_all) lo (hg1.of_frame hfr2.1)
+        (hst1.of_frame hfr2.1 hfr2.2) hk2
       refine ih _ _ _ h lo ((hg1.of_frame h13).of_eq rfl rfl) ((hst1.of_frame h13 (Nat.le_of_lt hlt3)).of_eq rfl rfl rfl ?_)
         (hk3.of_eq rfl rfl rfl ?_)
       all_goals (simp))
 
 
 /-- the tokenizer keeps the geometric invariant -/
-theorem tokenize_geo {P : InlP} (hP : InlSpec P) (cfg : Cfg) : ∀ fuel : Nat, TokGeo P (tokenize cfg fuel) := by
+theorem tokenize_geo {P : InlP} (cfg : Cfg) (hP : InlSpec cfg.hasPara P) :
+    ∀ fuel : Nat, TokGeo P (tokenize cfg fuel) := by
   intro fuel
   induction fuel with
   | zero => intro s s' h; simp [tokenize, engine] at h
@@ -1363,11 +1402,13 @@ theorem tokenize_geo {P : InlP} (hP : InlSpec P) (cfg : Cfg) : ∀ fuel : Nat, T
     simp only [tokenize, engine] at h
     have hk := tokenize_tokSpec cfg f
     have ht := testRules_pure cfg f
-    exact tokLoop_geo hP (runRule_spec hk ht _)
-      (fun r s b s' h hl hi => runRule_geo hP hk ih ht _ r h hl hi) _ _ _ _ h
+    refine tokLoop_geo hP (runRule_spec hk ht _)
+      (fun r s b s' h hl hi => runRule_geo hP hk ih ht _ r h hl hi) ?_ _ _ _ _ h
+    intro hp s b s' hc
+    exact runChain_para _ _ _ _ (by simpa [Cfg.hasPara] using hp) hc
 
 /-- the block tree: the root spans the whole source, and every node is `RangedB` -/
-theorem parseBlocks_geo {P : InlP} (hP : InlSpec P) {cfg : Cfg} {src : List Char} {root : BNode}
+theorem parseBlocks_geo {P : InlP} {cfg : Cfg} (hP : InlSpec cfg.hasPara P) {src : List Char} {root : BNode}
     {refs : Refs.RefMap} (hsmall : 4 * Lines.byteLen src + 8 < 2147483648)
     (h : parseBlocks cfg src = .ok (root, refs)) :
     root.range = some (0, Lines.byteLen src) ∧ RangedB P src root := by
@@ -1380,7 +1421,7 @@ theorem parseBlocks_geo {P : InlP} (hP : InlSpec P) {cfg : Cfg} {src : List Char
     refine ⟨rfl, ?_⟩
     have hfr := (tokenize_spec cfg _ _ _ hs).frame
     have hg := geo_fresh src hsmall .root []
-    have hk := tokenize_geo hP cfg _ _ _ hs 0 hg
+    have hk := tokenize_geo cfg hP _ _ _ hs 0 hg
       (fun k o _ _ => ⟨Nat.zero_le _, fun _ _ => Nat.zero_le _⟩) (kidsOk_nil rfl 0)
     obtain ⟨⟨hi, hord, hbd⟩, hdeep⟩ := hk
     have hsrc : s.src = src := hfr.src
@@ -1743,8 +1784,8 @@ theorem doc_root_range (cfg : DocCfg) (src : List Char) (t : Node) (h : parseDoc
 /-- the trivial claim about placeholders (the block-level theorem needs none) -/
 def PTriv : Block.InlP := fun _ _ _ _ => True
 
-theorem inlSpec_triv : Block.InlSpec PTriv :=
-  ⟨fun _ _ _ _ _ _ _ _ _ _ _ _ => trivial, fun _ _ _ _ _ _ _ _ _ _ => trivial, fun _ _ _ _ _ _ => trivial⟩
+theorem inlSpec_triv (para : Bool) : Block.InlSpec para PTriv :=
+  ⟨fun _ _ _ _ _ _ _ _ _ _ _ _ => trivial, fun _ _ _ _ _ _ _ _ _ _ => trivial, fun _ _ _ _ _ _ _ => trivial⟩
 
 /-- **`doc_block_ranges`.**  In the tree `parseDoc` returns, every BLOCK node carries a range `(a, b)`
     with `a ≤ b ≤ |src|` on character boundaries of the source; the ranges of its block-level
@@ -1756,8 +1797,203 @@ theorem doc_block_ranges (cfg : DocCfg) (src : List Char) (t : Node)
     (hsmall : 4 * Lines.byteLen src + 8 < 2147483648) (h : parseDoc cfg src = .ok t) :
     RangedRT src (bskel t) := by
   obtain ⟨root, refs, hb, hsk⟩ := doc_block_skeleton h
-  obtain ⟨hr, hg⟩ := Block.parseBlocks_geo inlSpec_triv hsmall hb
+  obtain ⟨hr, hg⟩ := Block.parseBlocks_geo (inlSpec_triv _) hsmall hb
   rw [hsk]
   exact rangedRT_node root hg _ _ hr
+
+theorem OrderedRT.le {lo hi : Nat} {l : List RT} (h : OrderedRT lo hi l) : lo ≤ hi := by
+  induction l generalizing lo with
+  | nil => exact h
+  | cons n r ih =>
+    obtain ⟨a, b, _, h2, h3, h4⟩ := h
+    have := ih h4; omega
+
+/-- in an ordered list every member lies inside `[lo, hi]` -/
+theorem OrderedRT.mem {lo hi : Nat} {l : List RT} (h : OrderedRT lo hi l) :
+    ∀ c ∈ l, ∃ a b, c.range = some (a, b) ∧ lo ≤ a ∧ a ≤ b ∧ b ≤ hi := by
+  induction l generalizing lo with
+  | nil => simp
+  | cons n r ih =>
+    obtain ⟨a, b, h1, h2, h3, h4⟩ := h
+    intro c hc
+    rcases List.mem_cons.mp hc with rfl | hc
+    · exact ⟨a, b, h1, h2, h3, h4.le⟩
+    · obtain ⟨a', b', q1, q2, q3, q4⟩ := ih h4 c hc
+      exact ⟨a', b', q1, by omega, q3, q4⟩
+
+/-- a child's range lies within its parent's -/
+theorem RangedRT.child_within {src : List Char} {n : RT} (h : RangedRT src n) :
+    ∃ a b, n.range = some (a, b) ∧ ∀ c ∈ n.kids, ∃ a' b', c.range = some (a', b') ∧ a ≤ a' ∧ a' ≤ b' ∧ b' ≤ b := by
+  cases h with
+  | mk _ a b hr _ _ _ _ ho _ => exact ⟨a, b, hr, ho.mem⟩
+
+/-! ## the complete property, on the document tree -/
+
+/-- consecutive ranges inside `[lo, hi]` -/
+def OrderedD : Nat → Nat → List Node → Prop
+  | lo, hi, [] => lo ≤ hi
+  | lo, hi, n :: rest => ∃ a b, n.range = some (a, b) ∧ lo ≤ a ∧ a ≤ b ∧ OrderedD b hi rest
+
+/-- C05 at one node: a valid range on character boundaries, the children inside it in source order
+    without overlap, and a `Text` whose range holds no line break selects its content -/
+def NodeOk (src : List Char) (n : Node) : Prop :=
+  ∃ a b, n.range = some (a, b) ∧ a ≤ b ∧ b ≤ Lines.byteLen src ∧
+    Lines.onBoundary src a = true ∧ Lines.onBoundary src b = true ∧ OrderedD a b n.children ∧
+    ∀ c, n.kind = .inl (.text c) → ∀ w, Lines.slice src a b = .ok w → '\n' ∉ w → '\r' ∉ w → w = c
+
+/-- **C05**, complete: the root covers the source, every node is `NodeOk` -/
+def RangesOk (src : List Char) (t : Node) : Prop :=
+  t.range = some (0, Lines.byteLen src) ∧ Every (NodeOk src) t
+
+theorem OrderedD.widen {lo hi lo' hi' : Nat} {l : List Node} (h : OrderedD lo hi l)
+    (h1 : lo' ≤ lo) (h2 : hi ≤ hi') : OrderedD lo' hi' l := by
+  induction l generalizing lo lo' with
+  | nil => simp only [OrderedD] at h ⊢; omega
+  | cons x r ih =>
+    obtain ⟨a, b, q1, q2, q3, q4⟩ := h
+    exact ⟨a, b, q1, by omega, q3, ih q4 (Nat.le_refl _)⟩
+
+mutual
+/-- the block-level theorem is the projection of the complete property to the block skeleton -/
+theorem rangesOk_bskel {src : List Char} (n : Node) (h : Every (NodeOk src) n) : RangedRT src (bskel n) := by
+  match n with
+  | ⟨k, r, at_, cs⟩ =>
+    obtain ⟨a, b, hr, h1, h2, h3, h4, h5, _⟩ := h.here
+    obtain ⟨l1, l2⟩ := rangesOk_bskelList cs a b h5 h.child
+    exact .mk _ a b (by simp only [bskel]; exact hr) h1 h2 h3 h4 (by simp only [bskel]; exact l1)
+      (by simp only [bskel]; exact l2)
+theorem rangesOk_bskelList {src : List Char} (cs : List Node) (lo hi : Nat) (ho : OrderedD lo hi cs)
+    (hd : ∀ c ∈ cs, Every (NodeOk src) c) :
+    OrderedRT lo hi (bskelList cs) ∧ ∀ x ∈ bskelList cs, RangedRT src x := by
+  match cs with
+  | [] => exact ⟨ho, by simp [bskelList]⟩
+  | c :: rest =>
+    obtain ⟨a, b, hr, h1, h2, h3⟩ := ho
+    obtain ⟨i1, i2⟩ := rangesOk_bskelList rest b hi h3 (fun x hx => hd x (List.mem_cons_of_mem _ hx))
+    simp only [bskelList]
+    split
+    · have hn := rangesOk_bskel c (hd c (by simp))
+      refine ⟨⟨a, b, by rw [bskel_eq]; exact hr, h1, h2, i1⟩, ?_⟩
+      intro x hx
+      rcases List.mem_cons.mp hx with rfl | hx
+      · exact hn
+      · exact i2 x hx
+    · exact ⟨i1.widen (by omega) (Nat.le_refl _), i2⟩
+end
+
+/-! ## non-vacuity and witnesses -/
+
+mutual
+/-- a skeleton in pre-order: (depth, start, end) -/
+def flatRT (d : Nat) : RT → List (Nat × Nat × Nat)
+  | ⟨r, ks⟩ => (d, (r.getD (0, 0)).1, (r.getD (0, 0)).2) :: flatRTList (d + 1) ks
+def flatRTList (d : Nat) : List RT → List (Nat × Nat × Nat)
+  | [] => []
+  | k :: ks => flatRT d k ++ flatRTList d ks
+end
+
+/-- a quote holding a two-line list item, then an indented code block -/
+def exDoc : List Char := "> - a\n>   b\n\n    code".toList
+
+example : (parseDoc (exCfg false 100) exDoc).toOption.map (·.range) = some (some (0, 21)) := by
+  decide +kernel
+
+/-- root, quote, list, item (its tight paragraph is dissolved), code block -/
+example : (parseDoc (exCfg false 100) exDoc).toOption.map (fun t => flatRT 0 (bskel t)) =
+    some [(0, 0, 21), (1, 0, 11), (2, 2, 11), (3, 2, 11), (1, 17, 21)] := by decide +kernel
+
+theorem exDoc_parses : ∃ t, parseDoc (exCfg false 100) exDoc = .ok t := by
+  have h : (parseDoc (exCfg false 100) exDoc).toOption.isSome = true := by decide +kernel
+  cases hp : parseDoc (exCfg false 100) exDoc with
+  | ok t => exact ⟨t, rfl⟩
+  | error e => rw [hp] at h; cases h
+
+/-- the hypotheses of `doc_root_range` / `doc_block_ranges` are satisfiable -/
+example : ∃ t, parseDoc (exCfg false 100) exDoc = .ok t ∧ t.range = some (0, 21) ∧ RangedRT exDoc (bskel t) := by
+  obtain ⟨t, ht⟩ := exDoc_parses
+  exact ⟨t, ht, doc_root_range _ _ t ht, doc_block_ranges _ _ t (by decide +kernel) ht⟩
+
+/-- the delicate starts: an indented code block on the first line of a list item keeps the one
+    column beyond the item's content column (`-` + 6 blanks: starts at byte 6, behind the marker), and
+    behind a quote marker and two tabs (the second tab is split into virtual spaces) it starts at the
+    first non-blank -/
+example : (parseDoc (exCfg false 100) "-      code\n".toList).toOption.map (fun t => flatRT 0 (bskel t)) =
+    some [(0, 0, 12), (1, 0, 11), (2, 0, 11), (3, 6, 11)] := by decide +kernel
+example : (parseDoc (exCfg false 100) ">\t\tcode".toList).toOption.map (fun t => flatRT 0 (bskel t)) =
+    some [(0, 0, 7), (1, 0, 7), (2, 3, 7)] := by decide +kernel
+
+/-- the split tab of `"- a\n\n \tb"` (the repaired `get_lines` mapping): the second paragraph and its
+    text are `(7, 8)`, inside the 8-byte input -/
+example : (parseDoc (exCfg false 100) "- a\n\n \tb".toList).toOption.map (fun t => flatRT 0 (bskel t)) =
+    some [(0, 0, 8), (1, 0, 8), (2, 0, 8), (3, 2, 3), (3, 7, 8)] := by decide +kernel
+
+/-- **Witness: the no-paragraph fallback violates C05** (model and crate agree: `md.parse("a")` with
+    only the `hr` block rule and the `newline` inline rule gives `Softbreak` at `(1, 2)` under
+    `Root (0, 1)`).  The fallback hands the inline parser `line + "\n"` mapped at `first_nonspace`,
+    so the line feed is translated to `line_end .. line_end + 1`: beyond the source for a last line
+    without terminator, and onto the `\r` only of a CR LF.  `doc_inline_ranges` therefore needs the
+    paragraph rule in the chain (`DocCfg.hasPara`), which makes the fallback dead code. -/
+example : (parseDoc { exCfg false 100 with blockChain := [.hr], inlineChain := [.text, .newline] }
+      "a".toList).toOption.map (fun t => (t.range, t.children.map (fun c => (c.kind, c.range)))) =
+    some (some (0, 1), [(.inl (.text ['a']), some (0, 1)), (.inl .softbreak, some (1, 2))]) := by
+  decide +kernel
+
+example : (parseDoc { exCfg false 100 with blockChain := [.hr], inlineChain := [.text, .newline] }
+      "a\r\nb".toList).toOption.map (fun t => t.children.map (fun c => c.range)) =
+    some [some (0, 1), some (1, 2), some (3, 4), some (4, 5)] := by decide +kernel
+
+
+/-
+OPEN: `doc_inline_ranges`, `doc_text_faithful` — the complete property `RangesOk`.
+
+  theorem doc_ranges_ok (cfg : DocCfg) (src : List Char) (t : Node)
+      (hsmall : 4 * Lines.byteLen src + 8 < 2147483648)
+      (hpara : cfg.hasPara = true)                      -- needed: witness above (no-paragraph fallback)
+      (hmono : no `get_lines` table of the block pass has a virtual-space entry, e.g. `'\t' ∉ src`)
+      (h : parseDoc cfg src = .ok t) : RangesOk src t
+
+  What is proved of it: the root clause (`doc_root_range`) and its whole block-level projection
+  (`doc_block_ranges` = `rangesOk_bskel` of the statement above), for ALL documents, tabs included.
+  What is prepared: the induction over the block tokenizer is done ONCE for an arbitrary claim
+  `P content mapping a b` about placeholders (`parseBlocks_geo`, hypothesis `InlSpec cfg.hasPara P`):
+  whatever `P` the two producers of placeholders establish, every placeholder's `P`-stretch `[a, b]`
+  sits in `OrderedB` position among its siblings inside its parent's range — also after
+  `mark_tight_paragraphs` dissolved its paragraph (`markTight_geo`).  Missing, precisely:
+
+   1. `InlSpec true PMap` for
+        PMap c m a b := C05.WFMap m ∧ Inline.KeysAfterLF c m ∧ C05.MonoMapV m ∧
+          ∀ pos x, (Inline.trimSrc c).1 ≤ pos → pos ≤ (Inline.trimSrc c).2 →
+            InlineOps.getSourcePosFor m pos = .ok x → a ≤ x ∧ x ≤ b
+      i.e. two lemmas about `Lines.getLines` on a `Geo` state, both by induction over
+      `Lines.mapOf` / `Lines.Faithful` (`Lines.getLinesGo_full` gives `mapping = mapOf indent 0 ovs`,
+      `views_of_tableOk` the views):
+        (a) `lines`: keys `0 <` strictly increasing, each key behind a line feed of the content
+            (`joinLines`), values = `line_start + cut` non-decreasing along `Sorted`, the translation
+            of `[trim start, trim end]` inside `[first_nonspace b, line_end (e-1)]` (the leading
+            blanks `get_lines` keeps beyond `blk_indent` are what `trim_src` skips);
+        (b) `heading`: the one-entry table `[(0, first_nonspace + text_pos)]`, with
+            `text_max ≤ |line|` from `atxTextMax`.
+   2. `Inline.inline_children_ordered` needs `MapOK` = `WFMap ∧ MonoMap ∧ KeysAfterLF`; `MonoMap` fails
+      exactly for a split tab (`C05.translate_not_mono_inside_virtual`), hence `hmono`; and it yields
+      `posEnd` without the bound `posEnd ≤ (trimSrc content).2` — wanted: `st.pos ≤ st.posMax` at the
+      exit of `Inline.tokenize` (from `Inline.tokenize_progress`: `pos + len ≤ posMax`).
+   3. the splice walk on the full tree: `spliceList` maps `OrderedB PMap lo hi cs` to
+      `OrderedD lo hi out` (the inline children `ofInlineList ns` of a placeholder are
+      `Inline.OrderedN (tr trim_start) (tr posEnd) ns` by 2, inside the placeholder's stretch by 1);
+      `ofInline` maps `Inline.WellRanged` to `Every NodeOk`-without-the-text-clause.
+   4. the join pass: `merged` takes the hull of two adjacent texts (`C05.join_ordered` on the
+      inline node type; here needed on `Pipeline.Node`, at block nodes too — the fallback aside,
+      block nodes have no two adjacent `Text` children unless a tight item holds two dissolved
+      paragraphs, whose texts the join pass DOES merge: their hull stays inside the item).
+   5. `doc_text_faithful`: `Inline.RI.trail` gives `content = inline_src[start..pos]` and
+      `range = (tr start, tr pos)` for the TRAILING text only; wanted for every `Text` of the finished
+      tree, then `Lines.Faithful` (content bytes = source bytes at the mapped positions, per line) +
+      `Inline.translate_same_line` carry it to `src[a..b] = content` when no key lies inside — which is
+      what "no line break in the range" provides (`Inline.no_key_inside`).  Escapes, entities and
+      code-span texts are not `Text` (`TextSpecial`, `CodeInline`) and the join pass merges `Text`
+      with `Text` only, so the clause is expected to hold as stated: no counter-example by evaluation
+      on samples with split tabs in first and continuation lines, escapes, entities, hard breaks,
+      left-over delimiters and closing `#`s of ATX headings (all `Text` ranges selected their content).
+-/
 
 end MdIt.Pipeline
